@@ -206,15 +206,6 @@ func whole(v val) (string, bool) {
 	return "(⟨" + strings.Join(parts, ", ") + "⟩ : " + v.lean + ")", true
 }
 
-func fieldNames(t types.Type) []string {
-	_, st, _ := structInfo(t)
-	out := make([]string, st.NumFields())
-	for i := range out {
-		out[i] = st.Field(i).Name()
-	}
-	return out
-}
-
 // namedStruct makes the value of a Lean variable / let-bound name of a struct type
 func namedStruct(name string, t types.Type) val {
 	l, st, _ := structInfo(t)
@@ -454,7 +445,7 @@ func (t *fnTrans) run() string {
 	}
 	t.postDominators()
 	body := tidy(render(t.walk(f.Blocks[0], -1, e, nil, false), 1))
-	return fmt.Sprintf("def %s %s : %s :=\n%s\n", t.g.lname[f], strings.Join(params, " "), resT, body)
+	return fmt.Sprintf("@[gen_def] def %s %s : %s :=\n%s\n", t.g.lname[f], strings.Join(params, " "), resT, body)
 }
 
 func ind(n int) string { return strings.Repeat("  ", n) }
@@ -1382,7 +1373,7 @@ func (g *gen) globalValue(gl *ssa.Global) val {
 		} else {
 			bad("reads the package variable %s, whose initialiser is not constant", gl.Name())
 		}
-		g.globals[gl] = &global{name: ident(gl.Name()), def: fmt.Sprintf("def %s : %s := %s\n", ident(gl.Name()), leanType(elem), def)}
+		g.globals[gl] = &global{name: ident(gl.Name()), def: fmt.Sprintf("@[gen_const] def %s : %s := %s\n", ident(gl.Name()), leanType(elem), def)}
 		g.gorder = append(g.gorder, gl)
 	}
 	return namedOfType(g.globals[gl].name, elem)
@@ -1445,6 +1436,24 @@ func (g *gen) initExpr(gl *ssa.Global) ast.Expr {
 
 // ---------------------------------------------------------------------------------------------------------- main
 
+// wrap joins the words with ", " into lines of at most `width` columns
+func wrap(words []string, indent string, width int) string {
+	var lines []string
+	cur := indent
+	for i, w := range words {
+		if i < len(words)-1 {
+			w += ","
+		}
+		if len(cur)+len(w)+1 > width && cur != indent {
+			lines = append(lines, strings.TrimRight(cur, " "))
+			cur = indent
+		}
+		cur += w + " "
+	}
+	lines = append(lines, strings.TrimRight(cur, " "))
+	return strings.Join(lines, "\n")
+}
+
 func main() {
 	if len(os.Args) < 3 {
 		fmt.Fprintln(os.Stderr, "usage: ssagen <repo dir> <out.lean>")
@@ -1488,7 +1497,7 @@ func main() {
 		}
 	}
 	var sb strings.Builder
-	sb.WriteString("import Model.U128\nimport Model.I128\n")
+	sb.WriteString("import Model.U128\nimport Model.I128\nimport Lemmas.GenAttr\n")
 	sb.WriteString("/-! GENERATED by /verif/gossa (ssagen) from the typed SSA form of package xmath/num — do not edit.\n")
 	sb.WriteString("    Regenerated from the working tree of the repository on every run of `./check C01`.\n\n")
 	sb.WriteString("    Encoding: every Go integer of width w is a `BitVec w` (int, uint, int64, uint64: `BitVec 64`; `+ - *` wrap;\n")
@@ -1497,8 +1506,11 @@ func main() {
 	sb.WriteString("    Uint128 / Int128 are the records `U128` / `I128` of the model; `math/bits` calls are the contract\n")
 	sb.WriteString("    definitions of Model/U128.lean (`add64 sub64 mul64 len64 clz ctz popcount`, the `int` results embedded\n")
 	sb.WriteString("    with `BitVec.ofNat 64`); package variables with a constant initialiser that the package never writes are\n")
-	sb.WriteString("    read as that constant.  A branch is `if … then … else …`; join blocks are duplicated per path.\n\n")
-	fmt.Fprintf(&sb, "    translated (%d): %s\n\n", len(translated), strings.Join(translated, ", "))
+	sb.WriteString("    read as that constant.  A branch is `if … then … else …`; where both arms of a branch meet again the\n")
+	sb.WriteString("    values that differ at the join (phi nodes, updated fields of a local struct) are `let`-bound to the\n")
+	sb.WriteString("    `if` expression; other join blocks are duplicated per path.  The attributes `gen_def` / `gen_const`\n")
+	sb.WriteString("    (Lemmas/GenAttr.lean) collect the definitions for the proof script of Props/C01Gen.lean.\n\n")
+	fmt.Fprintf(&sb, "    translated (%d):\n%s\n\n", len(translated), wrap(translated, "      ", 116))
 	fmt.Fprintf(&sb, "    outside the fragment (%d):\n", len(skipped))
 	for _, s := range skipped {
 		fmt.Fprintf(&sb, "      %s — %s\n", s.Name, s.Reason)
